@@ -430,6 +430,8 @@ def run(program, ctx):
     c13.rule_subid(program, ctx, prop=P, rid="C05.subid")
     c13.rule_cancel(program, ctx, prop=P, rid="C05.cancel")
     rule_schema(program, ctx)
+    ridm = ctx.rule("C05.model", "since/until/kinds/limit are int-typed in the filter model: the SQL builder renders them with %d (truncating) while the live matcher compares exactly - a float bound makes the two disagree", floor=3)
+    c01.derive_model_fields(program, ctx, ridm, prop=P)
     c13.rule_every_item_sent(program, ctx, prop=P, rid="C05.sender")
     c13.rule_sender(program, ctx, prop=P, rid="C05.frame")
     from . import c07
